@@ -5,6 +5,8 @@ Inert unless MCHAP_VERIF_INJECT is set.  Put this directory on PYTHONPATH of a `
                                                         (different per locus and per seed) -> schedule diversity for
                                                         the worker pool / writer queue
   MCHAP_VERIF_INJECT="fail=<locus-name>"               raise RuntimeError while that locus is processed (inside the worker)
+  MCHAP_VERIF_INJECT="slow=<locus-name>:<ms>"          sleep before that locus is processed (makes its block finish late)
+  MCHAP_VERIF_INJECT="slowothers=<locus-name>:<ms>"    sleep before every OTHER locus (makes that locus' block finish early)
 Several directives may be joined with ','.
 """
 import os
@@ -35,6 +37,14 @@ if _spec:
                 h = hashlib.blake2b(("%s|%s|%s|%s" % (seed, name, locus.contig, locus.start)).encode(), digest_size=4).digest()
                 frac = int.from_bytes(h, "big") / 2**32
                 time.sleep(frac * float(max_ms) / 1000.0)
+            if "slow" in _cfg:
+                nm, ms = _cfg["slow"].rsplit(":", 1)
+                if nm == name:
+                    time.sleep(float(ms) / 1000.0)
+            if "slowothers" in _cfg:
+                nm, ms = _cfg["slowothers"].rsplit(":", 1)
+                if nm != name:
+                    time.sleep(float(ms) / 1000.0)
             if _cfg.get("fail") == name:
                 raise RuntimeError("MCHAP_VERIF_INJECT: injected failure at locus %s" % name)
             return orig(self, locus, sample_bams)
